@@ -75,7 +75,7 @@ func init() {
 			// cancel some pending jobs of in-memory queues while the worker is still paused
 			var cancellable []int
 			for _, op := range ops {
-				if k := c.Cfg.Queues[op.Q]; k == "std" || k == "prio" {
+				if isMemKind(c.Cfg.Queues[op.Q]) {
 					cancellable = append(cancellable, op.It.N)
 				}
 			}
